@@ -18,6 +18,9 @@ RULE = (
     "some measured subsystem's marginal has no outcome above 1-1e-3; distinct = (entry, storages, representations, "
     "flags, number measured, layout hash, script)."
 )
+from pw_verif.props._machine import HISTORY_NOTE, SURVIVOR_NOTE  # noqa: E402,F401
+
+RULE += SURVIVOR_NOTE + HISTORY_NOTE
 ASSUMPTIONS = ["reference self-tests passed", "forcing an outcome never changes which code runs, only the index returned by the sampler",
                "label states that return without drawing are checked as point masses (path probability 1)"]
 
